@@ -39,6 +39,26 @@ def prefixes(rnd):
     return out
 
 
+def ext_chains(rnd):
+    """present-word chains that run up to, onto and over the announced header length, with capture bytes following the
+    header (a chain must be bounded by it_len, not by the capture)"""
+    out = []
+    for k in (1, 2, 3, 4):
+        for last_ext in (True, False):
+            words = []
+            for i in range(k):
+                w = 0x80000000 if (i < k - 1 or last_ext) else 0
+                if rnd.random() < 0.3:
+                    w |= 1 << 29
+                words.append(w)
+            chain = b"".join(w.to_bytes(4, "little") for w in words)
+            for it_len in range(8, 8 + 4 * k + 5):
+                for extra in (0, 1, 3, 4, 8, 30):
+                    tail = bytes(rnd.getrandbits(7) for _ in range(extra))
+                    out.append(bytes([0, 0]) + it_len.to_bytes(2, "little") + chain + tail)
+    return out
+
+
 def check(ctx):
     thorough = ctx.tier == "thorough"
     ctx.rule = ("all 65 536 frame-control values x frame lengths %s without radiotap (exhaustive), and x lengths {h-1, h, h+1} behind each radiotap prefix class "
@@ -121,6 +141,7 @@ def check(ctx):
     fw.run_suite(ctx, exe, "S-cls/radiotap-long", lines, "frame classification behind a long radiotap header")
     import frames
     fw.run_suite(ctx, exe, "S-cls/size-ladder", [l for l in frames.size_ladder(rnd, ctx.tier) if l.startswith("cls ")], "classification of long frames")
+    fw.run_suite(ctx, exe, "S-cls/radiotap-ext-chains", sorted({"cls 1 " + b.hex() for b in ext_chains(rnd)}), "frame classification behind a present-word chain")
     # radiotap mode on frames without a radiotap header and vice versa
     mixed = []
     for _ in range(2000):
